@@ -84,8 +84,16 @@ pub fn finish_listener(w: &mut World, l: usize) -> Option<ProcExit> {
     let port = w.ports.log;
     // a listener that a fault left stopped must first be allowed to drain
     w.ctl.as_mut()?.signal(l, libc::SIGCONT);
+    // the listener relays line by line with a flush per line: megabytes take seconds to drain
     let t0 = Instant::now();
-    while tcp_local_states(port, &["01", "08"]) > 0 && t0.elapsed() < Duration::from_secs(5) {
+    while tcp_local_states(port, &["01", "08"]) > 0 {
+        if t0.elapsed() > Duration::from_secs(90) {
+            // not drained: its capture is incomplete and must not be judged
+            let ctl = w.ctl.as_mut()?;
+            ctl.kill(l);
+            let _ = ctl.wait_exit(l, Duration::from_secs(5));
+            return None;
+        }
         std::thread::sleep(Duration::from_micros(500));
     }
     let ctl = w.ctl.as_mut()?;
@@ -127,7 +135,13 @@ fn gen_c15(seed: u64, idx: usize, _tier: Tier) -> C15Scenario {
             let outs = (0..k)
                 .map(|i| {
                     let fd = if rng.chance(1, 2) { 1 } else { 2 };
-                    OutStep { fd, hex: hex(format!("{}@{} fd{} #{}\n", c.command, c.target, fd, i).as_bytes()), pause_ms: 0 }
+                    let mut b = format!("{}@{} fd{} #{}", c.command, c.target, fd, i).into_bytes();
+                    // one line in six is not valid UTF-8 (Latin-1 text, a truncated multi-byte sequence, raw bytes)
+                    if rng.chance(1, 6) {
+                        b.extend_from_slice(*rng.pick(&[&b" caf\xe9"[..], &b" \xe2\x82"[..], &b" \x00\xff\xfe"[..]]));
+                    }
+                    b.push(b'\n');
+                    OutStep { fd, hex: hex(&b), pause_ms: 0 }
                 })
                 .collect();
             Behav { command: c.command.clone(), target: c.target.clone(), outs, code: 0, exit_pause_ms: 0 }
@@ -161,11 +175,17 @@ fn gen_c15(seed: u64, idx: usize, _tier: Tier) -> C15Scenario {
         Some(ListenerCfg { stdout: so, stderr: se, targets, commands })
     };
     if listener.is_some() {
-        match rng.below(6) {
+        match rng.below(7) {
             0 => {}
             1 => script.lfaults.push(LFault { at: LTrigger::AtPoint { name: "cli.lock.acquired".into(), nth: 1 }, action: LAction::Kill }),
             2 => script.lfaults.push(LFault { at: LTrigger::AtPoint { name: "run.group.done".into(), nth: rng.range(1, 2) }, action: LAction::Kill }),
             3 | 4 => script.lfaults.push(LFault { at: LTrigger::AfterOut { n: rng.range(1, total_outs.max(1)) }, action: LAction::Kill }),
+            5 if rng.chance(1, 2) => {
+                // stopped, then killed while it still has unread data queued: the peer sees a reset, not a FIN
+                let a = rng.range(1, total_outs.max(1));
+                script.lfaults.push(LFault { at: LTrigger::AfterOut { n: a }, action: LAction::Stop });
+                script.lfaults.push(LFault { at: LTrigger::AfterOut { n: (a + rng.range(1, 3)).min(total_outs.max(1)) }, action: LAction::Kill });
+            }
             _ => {
                 let a = rng.range(1, total_outs.max(1));
                 script.lfaults.push(LFault { at: LTrigger::AfterOut { n: a }, action: LAction::Stop });
@@ -421,12 +441,17 @@ fn gen_c20(seed: u64, idx: usize, tier: Tier) -> C20Scenario {
     let spec = WorldSpec { targets, cmd_files, files: vec![], sequences: vec![], max_retained_runs: 2, gitignore: vec![], git: false };
     let mut script = RunScript::simple(RunOpts { commands: cmds.clone(), ..Default::default() });
     let per_task = rng.range(6, 20);
+    // one scenario in eight: a long stall of the listener while more is written than the connection can
+    // buffer (about 4 MB on loopback), so that writers really block behind it
+    let heavy_stall = rng.chance(1, if tier == Tier::Thorough { 8 } else { 16 }) && nt <= 8;
+    // one in five: some writes are far larger than any chunking constant (blocks of 80-200 KB)
+    let chatty = !heavy_stall && rng.chance(1, 5);
     for cf in &spec.cmd_files {
         let mut seq = [0u32; 3];
         let outs = (0..per_task)
             .map(|_| {
                 let fd = if rng.chance(1, 2) { 1u8 } else { 2 };
-                let k = rng.range(1, 3);
+                let k = if heavy_stall { rng.range(500, 700) } else if chatty && rng.chance(1, 3) { rng.range(900, 2200) } else { rng.range(1, 3) };
                 let mut s = String::new();
                 for _ in 0..k {
                     seq[fd as usize] += 1;
@@ -454,7 +479,10 @@ fn gen_c20(seed: u64, idx: usize, tier: Tier) -> C20Scenario {
     if cmds.len() > 1 && rng.chance(1, 2) {
         lc.push(cmds[rng.below(cmds.len())].clone());
     }
-    if rng.chance(1, 4) {
+    if heavy_stall {
+        let total: usize = script.behav.iter().map(|b| b.outs.len()).sum();
+        script.lfaults.push(LFault { at: LTrigger::AfterOut { n: rng.range(1, (total / 6).max(1)) }, action: LAction::StopFor { ms: *rng.pick(&[1300u32, 1600, 2500]) } });
+    } else if rng.chance(1, 4) {
         let total: usize = script.behav.iter().map(|b| b.outs.len()).sum();
         let a = rng.range(1, total / 2);
         script.lfaults.push(LFault { at: LTrigger::AfterOut { n: a }, action: LAction::Stop });
@@ -481,8 +509,13 @@ fn exec_c20(sc: &C20Scenario) -> Outcome {
     out.trace = tr.log.iter().filter(|l| !l.starts_with("out ")).cloned().collect();
     out.steps = tr.steps as u64;
     for (a, _) in &tr.lfaults_fired {
-        out.fault(&format!("listener_{:?}", a).to_lowercase(), 1);
+        let name = match a {
+            LAction::StopFor { .. } => "listener_stalled_for_seconds_behind_a_full_connection".to_string(),
+            other => format!("listener_{:?}", other).to_lowercase(),
+        };
+        out.fault(&name, 1);
     }
+    out.sim_ms = tr.real_pause_ms;
     if tr.hang.is_some() || tr.code() != Some(0) {
         out.advisories.push(format!("run failed: {:?} {:?} {}", tr.hang, tr.code(), tr.stderr_str()));
         out.skipped = Some("run_did_not_succeed(other property)".into());
